@@ -52,7 +52,8 @@ def has_identical_list_elements(list_: Sequence[list[Any]]) -> bool:
     """
     if not list_:
         return True
-    return all(list_[i] == list_[i - 1] for i in range(1, len(list_)))
+    first = set(list_[0])
+    return all(set(list_[i]) == first for i in range(1, len(list_)))
 
 
 def subscriptions_comparator_key(element: tuple[str, Sized]) -> tuple[int, str]:
